@@ -174,7 +174,7 @@ void h_merge_min(void) MERGE_HARNESS(GIN(g_a, NA_LO, NA_HI), GIN(g_b, NB_LO, NB_
 //@check id=merge_widen fn=_ZNK4ikos13patricia_treeI1K1VSt8equal_toIS2_EE6lookupERKS1_ props=C19 tag=lookup unwind=5 backends=minisat,kissat first_timeout=600 timeout=900 timeout_thorough=2400 defs=SCN=SC_MERGE,OPK=OP_WIDEN vary=NN:4 vary_thorough=NN:0-7 bounded="<=2 bindings per tree, keys < 8" cbmc=--unwindset,_ZNK4ikos19patricia_trees_impl4nodeI1K1VSt8equal_toIS3_EE6lookupERKS2_:1,--unwindset,_ZNK4ikos19patricia_trees_impl4nodeI1K1VSt8equal_toIS3_EE4findERKS2_:1,--unwindset,_ZN4ikos19patricia_trees_impl4treeI1K1VSt8equal_toIS3_EE6insertESt10shared_ptrIS6_ERKS2_RKS3_RNS_9binary_opIS2_S3_EEb:2,--unwindset,_ZN4ikos19patricia_trees_impl4treeI1K1VSt8equal_toIS3_EE5mergeESt10shared_ptrIS6_ES8_RNS_9binary_opIS2_S3_EEb:2,--unwindset,_ZN4ikos19patricia_trees_impl4treeI1K1VSt8equal_toIS3_EE7compareESt10shared_ptrIS6_ES8_RNS_13partial_orderIS3_EEb:2,--unwindset,_ZN4ikos19patricia_trees_impl4treeI1K1VSt8equal_toIS3_EE6removeESt10shared_ptrIS6_ERKS2_:2,--unwindset,_ZN4ikos19patricia_trees_impl4treeI1K1VSt8equal_toIS3_EE9transformESt10shared_ptrIS6_ERNS_8unary_opIS3_EE:2,--unwindset,_ZN4ikos19patricia_trees_impl4treeI1K1VSt8equal_toIS3_EE8iterator18look_for_next_leafESt10shared_ptrIS6_E:2
 void h_merge_widen(void) MERGE_HARNESS(GIN(g_a, NA_LO, NA_HI), GIN(g_b, NB_LO, NB_HI), NA_HI, NB_HI, WIDENOP, widen_op_new)
 /* BOUNDED */
-//@check id=merge_first fn=_ZNK4ikos13patricia_treeI1K1VSt8equal_toIS2_EE6lookupERKS1_ props=C19 tag=lookup unwind=5 backends=minisat,kissat first_timeout=600 timeout=900 timeout_thorough=2400 defs=SCN=SC_MERGE,OPK=OP_FIRST vary=NN:4 vary_thorough=NN:0-7 bounded="<=2 bindings per tree, keys < 8" cbmc=--unwindset,_ZNK4ikos19patricia_trees_impl4nodeI1K1VSt8equal_toIS3_EE6lookupERKS2_:1,--unwindset,_ZNK4ikos19patricia_trees_impl4nodeI1K1VSt8equal_toIS3_EE4findERKS2_:1,--unwindset,_ZN4ikos19patricia_trees_impl4treeI1K1VSt8equal_toIS3_EE6insertESt10shared_ptrIS6_ERKS2_RKS3_RNS_9binary_opIS2_S3_EEb:2,--unwindset,_ZN4ikos19patricia_trees_impl4treeI1K1VSt8equal_toIS3_EE5mergeESt10shared_ptrIS6_ES8_RNS_9binary_opIS2_S3_EEb:2,--unwindset,_ZN4ikos19patricia_trees_impl4treeI1K1VSt8equal_toIS3_EE7compareESt10shared_ptrIS6_ES8_RNS_13partial_orderIS3_EEb:2,--unwindset,_ZN4ikos19patricia_trees_impl4treeI1K1VSt8equal_toIS3_EE6removeESt10shared_ptrIS6_ERKS2_:2,--unwindset,_ZN4ikos19patricia_trees_impl4treeI1K1VSt8equal_toIS3_EE9transformESt10shared_ptrIS6_ERNS_8unary_opIS3_EE:2,--unwindset,_ZN4ikos19patricia_trees_impl4treeI1K1VSt8equal_toIS3_EE8iterator18look_for_next_leafESt10shared_ptrIS6_E:2
+//@check id=merge_first fn=_ZNK4ikos13patricia_treeI1K1VSt8equal_toIS2_EE6lookupERKS1_ props=C19 tag=lookup unwind=5 backends=minisat,kissat first_timeout=600 timeout=900 timeout_thorough=2400 defs=SCN=SC_MERGE,OPK=OP_FIRST vary=NN:4,7 vary_thorough=NN:0-7 bounded="<=2 bindings per tree, keys < 8" cbmc=--unwindset,_ZNK4ikos19patricia_trees_impl4nodeI1K1VSt8equal_toIS3_EE6lookupERKS2_:1,--unwindset,_ZNK4ikos19patricia_trees_impl4nodeI1K1VSt8equal_toIS3_EE4findERKS2_:1,--unwindset,_ZN4ikos19patricia_trees_impl4treeI1K1VSt8equal_toIS3_EE6insertESt10shared_ptrIS6_ERKS2_RKS3_RNS_9binary_opIS2_S3_EEb:2,--unwindset,_ZN4ikos19patricia_trees_impl4treeI1K1VSt8equal_toIS3_EE5mergeESt10shared_ptrIS6_ES8_RNS_9binary_opIS2_S3_EEb:2,--unwindset,_ZN4ikos19patricia_trees_impl4treeI1K1VSt8equal_toIS3_EE7compareESt10shared_ptrIS6_ES8_RNS_13partial_orderIS3_EEb:2,--unwindset,_ZN4ikos19patricia_trees_impl4treeI1K1VSt8equal_toIS3_EE6removeESt10shared_ptrIS6_ERKS2_:2,--unwindset,_ZN4ikos19patricia_trees_impl4treeI1K1VSt8equal_toIS3_EE9transformESt10shared_ptrIS6_ERNS_8unary_opIS3_EE:2,--unwindset,_ZN4ikos19patricia_trees_impl4treeI1K1VSt8equal_toIS3_EE8iterator18look_for_next_leafESt10shared_ptrIS6_E:2
 void h_merge_first(void) MERGE_HARNESS(GIN(g_a, NA_LO, NA_HI), GIN(g_b, NB_LO, NB_HI), NA_HI, NB_HI, FIRSTOP, first_op_new)
 
 /* leq in both default_is_top modes: exactly the pointwise order.  (This is the check that the defect repaired by
@@ -238,7 +238,7 @@ void h_leq_copy(void){ GIN(g_a, NA_LO, NA_HI); GHOSTG(uint64_t, g_q); GHOSTG(uin
 #define CS_B (CS == 0 ? KS_B : CS == 1 ? KS_B : CS == 2 ? KS_A : CS == 3 ? KS_A2 : CS == 4 ? KS_F : CS == 5 ? KS_A : CS == 6 ? KS_G : CS == 7 ? KS_A : \
               CS == 8 ? KS_A : CS == 9 ? KS_L1 : CS == 10 ? KS_A : CS == 11 ? KS_L3 : CS == 12 ? KS_D : KS_C)
 /* BOUNDED */
-//@check id=deep_merge_max fn=_ZNK4ikos13patricia_treeI1K1VSt8equal_toIS2_EE6lookupERKS1_ props=C19 tag=lookup tier=thorough unwind=6 defs=SCN=SC_MERGE,OPK=OP_MAX vary=CS:0-13 bounded="one pair of concrete key sets per run (<=4 keys < 8 each, 14 pairs), values symbolic" backends=minisat,kissat first_timeout=900 timeout=1200 cbmc=--unwindset,_ZNK4ikos19patricia_trees_impl4nodeI1K1VSt8equal_toIS3_EE6lookupERKS2_:3,--unwindset,_ZNK4ikos19patricia_trees_impl4nodeI1K1VSt8equal_toIS3_EE4findERKS2_:3,--unwindset,_ZN4ikos19patricia_trees_impl4treeI1K1VSt8equal_toIS3_EE6insertESt10shared_ptrIS6_ERKS2_RKS3_RNS_9binary_opIS2_S3_EEb:4,--unwindset,_ZN4ikos19patricia_trees_impl4treeI1K1VSt8equal_toIS3_EE5mergeESt10shared_ptrIS6_ES8_RNS_9binary_opIS2_S3_EEb:4,--unwindset,_ZN4ikos19patricia_trees_impl4treeI1K1VSt8equal_toIS3_EE7compareESt10shared_ptrIS6_ES8_RNS_13partial_orderIS3_EEb:4,--unwindset,_ZN4ikos19patricia_trees_impl4treeI1K1VSt8equal_toIS3_EE6removeESt10shared_ptrIS6_ERKS2_:4,--unwindset,_ZN4ikos19patricia_trees_impl4treeI1K1VSt8equal_toIS3_EE9transformESt10shared_ptrIS6_ERNS_8unary_opIS3_EE:4,--unwindset,_ZN4ikos19patricia_trees_impl4treeI1K1VSt8equal_toIS3_EE8iterator18look_for_next_leafESt10shared_ptrIS6_E:4
+//@check id=deep_merge_max fn=_ZNK4ikos13patricia_treeI1K1VSt8equal_toIS2_EE6lookupERKS1_ props=C19 tag=lookup unwind=6 defs=SCN=SC_MERGE,OPK=OP_MAX vary=CS:1 vary_thorough=CS:0-13 cost=5 bounded="one pair of concrete key sets per run (<=4 keys < 8 each, 14 pairs), values symbolic" backends=minisat,kissat first_timeout=900 timeout=1200 cbmc=--unwindset,_ZNK4ikos19patricia_trees_impl4nodeI1K1VSt8equal_toIS3_EE6lookupERKS2_:3,--unwindset,_ZNK4ikos19patricia_trees_impl4nodeI1K1VSt8equal_toIS3_EE4findERKS2_:3,--unwindset,_ZN4ikos19patricia_trees_impl4treeI1K1VSt8equal_toIS3_EE6insertESt10shared_ptrIS6_ERKS2_RKS3_RNS_9binary_opIS2_S3_EEb:4,--unwindset,_ZN4ikos19patricia_trees_impl4treeI1K1VSt8equal_toIS3_EE5mergeESt10shared_ptrIS6_ES8_RNS_9binary_opIS2_S3_EEb:4,--unwindset,_ZN4ikos19patricia_trees_impl4treeI1K1VSt8equal_toIS3_EE7compareESt10shared_ptrIS6_ES8_RNS_13partial_orderIS3_EEb:4,--unwindset,_ZN4ikos19patricia_trees_impl4treeI1K1VSt8equal_toIS3_EE6removeESt10shared_ptrIS6_ERKS2_:4,--unwindset,_ZN4ikos19patricia_trees_impl4treeI1K1VSt8equal_toIS3_EE9transformESt10shared_ptrIS6_ERNS_8unary_opIS3_EE:4,--unwindset,_ZN4ikos19patricia_trees_impl4treeI1K1VSt8equal_toIS3_EE8iterator18look_for_next_leafESt10shared_ptrIS6_E:4
 void h_deep_merge_max(void) MERGE_HARNESS(GMASK(g_a, CS_A), GMASK(g_b, CS_B), PT_NMAX, PT_NMAX, MAXOP, max_op_new)
 /* BOUNDED */
 //@check id=deep_merge_min fn=_ZNK4ikos13patricia_treeI1K1VSt8equal_toIS2_EE6lookupERKS1_ props=C19 tag=lookup tier=thorough unwind=6 defs=SCN=SC_MERGE,OPK=OP_MIN vary=CS:0-13 bounded="one pair of concrete key sets per run (<=4 keys < 8 each, 14 pairs), values symbolic" backends=minisat,kissat first_timeout=900 timeout=1200 cbmc=--unwindset,_ZNK4ikos19patricia_trees_impl4nodeI1K1VSt8equal_toIS3_EE6lookupERKS2_:3,--unwindset,_ZNK4ikos19patricia_trees_impl4nodeI1K1VSt8equal_toIS3_EE4findERKS2_:3,--unwindset,_ZN4ikos19patricia_trees_impl4treeI1K1VSt8equal_toIS3_EE6insertESt10shared_ptrIS6_ERKS2_RKS3_RNS_9binary_opIS2_S3_EEb:4,--unwindset,_ZN4ikos19patricia_trees_impl4treeI1K1VSt8equal_toIS3_EE5mergeESt10shared_ptrIS6_ES8_RNS_9binary_opIS2_S3_EEb:4,--unwindset,_ZN4ikos19patricia_trees_impl4treeI1K1VSt8equal_toIS3_EE7compareESt10shared_ptrIS6_ES8_RNS_13partial_orderIS3_EEb:4,--unwindset,_ZN4ikos19patricia_trees_impl4treeI1K1VSt8equal_toIS3_EE6removeESt10shared_ptrIS6_ERKS2_:4,--unwindset,_ZN4ikos19patricia_trees_impl4treeI1K1VSt8equal_toIS3_EE9transformESt10shared_ptrIS6_ERNS_8unary_opIS3_EE:4,--unwindset,_ZN4ikos19patricia_trees_impl4treeI1K1VSt8equal_toIS3_EE8iterator18look_for_next_leafESt10shared_ptrIS6_E:4
